@@ -1,4 +1,5 @@
 import LP.Model.MPoly
+import LP.Model.GcdCheck
 import LP.Driver.Scalar
 namespace LP.Driver
 open LP
@@ -327,5 +328,128 @@ def checkOrd (op : String) (args res : List String) : Verdict :=
           else .ok "eqhash/different")
      | _, _, _ => .skip "bad")
   | _, _, _ => .skip s!"unknown ord op {op}"
+
+end LP.Driver
+
+namespace LP.Driver
+open LP
+
+def certTag : MPoly.Cert → String
+  | .yes => "certified" | .no => "refuted" | .unknown => "inconclusive"
+
+/-- multivariate gcd / lcm / pp / cont over Z -/
+def checkGcd (op : String) (args res : List String) : Verdict :=
+  let K : Ring := none
+  let R? (s : String) : Option MPoly := match pPolyRaw? s with
+    | some raw => if rawCanonical K raw then some (MPoly.normalize K raw) else none
+    | none => none
+  match op, args, res with
+  | "gcd", [_, flags, p, q, g0], [g] =>
+    (match R? p, R? q, R? g0, R? g with
+     | some P, some Q, some G0, some G =>
+       let tag := s!"gcd/flags{flags}/{if P.isEmpty ∨ Q.isEmpty then "zero" else if P = Q then "equal" else if G0.length ≤ 1 then "small-common" else "poly-common"}"
+       -- a known common divisor must divide the gcd
+       if !(P.isEmpty ∧ Q.isEmpty) ∧ (MPoly.divExact? K false G G0).isNone then
+         .viol "gcd-greatest" s!"the common divisor {showPoly G0} does not divide the returned gcd {showPoly G}"
+       else
+         (match MPoly.checkGcdZ P Q G with
+          | .yes => .ok (tag ++ "/certified")
+          | .no => .viol "gcd-gcd" s!"returned {showPoly G}: does not divide both operands, or the cofactors share a factor"
+          | .unknown => .ok (tag ++ "/common-divisor-only"))
+     | _, _, _, _ => .viol "poly-canon" "gcd operand/result not canonical")
+  | "lcm", [_, _, p, q], [l] =>
+    (match R? p, R? q, R? l with
+     | some P, some Q, some L =>
+       -- p | l, q | l and p*q/l is a gcd of p and q
+       (match MPoly.divExact? K false L P, MPoly.divExact? K false L Q, MPoly.divExact? K false (MPoly.mul K P Q) L with
+        | some _, some _, some G =>
+          (match MPoly.checkGcdZ P Q G with
+           | .yes => .ok "lcm/certified"
+           | .no => .viol "gcd-lcm" s!"p*q/lcm = {showPoly G} is not a gcd"
+           | .unknown => .ok "lcm/multiple-only")
+        | _, _, _ => .viol "gcd-lcm" s!"lcm {showPoly L} is not a common multiple dividing p*q")
+     | _, _, _ => .viol "poly-canon" "lcm operand/result not canonical")
+  | "ppcont", [_, xs, p], [pp, c] =>
+    (match pInt? xs, R? p, R? pp, R? c with
+     | some x, some P, some PP, some C =>
+       if MPoly.mul K PP C ≠ P then .viol "gcd-ppcont" s!"cont*pp ≠ p: pp={showPoly PP} cont={showPoly C}"
+       else if MPoly.lcSign PP ≤ 0 then .viol "gcd-ppsign" s!"primitive part has non-positive leading coefficient: {showPoly PP}"
+       else if x < 0 then (if PP = [([], 1)] then .ok "ppcont/constant" else .viol "gcd-ppcont" "primitive part of a constant is not 1")
+       else if (MPoly.vars C).contains x.toNat then .viol "gcd-ppcont" "content contains the main variable"
+       else
+         (match MPoly.primitiveIn K x.toNat PP with
+          | .yes => .ok "ppcont/certified"
+          | .no => .viol "gcd-primitive" s!"primitive part {showPoly PP} has non-trivial content"
+          | .unknown => .ok "ppcont/product-only")
+     | _, _, _, _ => .viol "poly-canon" "pp/cont operand/result not canonical")
+  | _, _, _ => .skip s!"unknown gcd op {op}"
+
+def upToQ (cs : List Int) : QPoly := cs.map (fun (c : Int) => (c : Rat))
+
+/-- univariate gcd family -/
+def checkUGcd (op : String) (args res : List String) : Verdict :=
+  match args with
+  | rs :: rest =>
+    (match pRing? rs with
+     | none => .skip "bad ring"
+     | some (K, prime) =>
+       let U? (s : String) : Option (List Int) := match pUPoly? s with
+         | some cs => if upCanonical K cs then some cs else none
+         | none => none
+       let M (cs : List Int) : MPoly := upolyToMPoly K 0 cs
+       match op, rest, res with
+       | "gcd", [flags, p, q, g0], [g] =>
+         (match U? p, U? q, U? g0, U? g with
+          | some p, some q, some g0, some g =>
+            let P := M p; let Q := M q; let G := M g; let G0 := M g0
+            let tag := s!"ugcd/{ringTag K prime}/flags{flags}"
+            if P.isEmpty ∧ Q.isEmpty then (if G.isEmpty then .ok (tag ++ "/zero") else .viol "ugcd-gcd" "gcd(0,0) ≠ 0") else
+            if (MPoly.divExact? K prime G G0).isNone then .viol "ugcd-greatest" s!"the common divisor {showUPoly g0} does not divide the returned gcd {showUPoly g}" else
+            (match MPoly.divExact? K prime P G, MPoly.divExact? K prime Q G with
+             | some A, some B =>
+               (match K with
+                | none =>
+                  (match MPoly.coprimeCheck A B with
+                   | .yes => .ok (tag ++ "/certified")
+                   | .no => .viol "ugcd-gcd" s!"cofactors of {showUPoly g} share a factor"
+                   | .unknown => .ok (tag ++ "/common-divisor-only"))
+                | some M' =>
+                  if g.getLast? ≠ some 1 then .viol "ugcd-monic" s!"gcd over a prime field is not monic: {showUPoly g}"
+                  else if (A.isEmpty ∧ B.isEmpty) ∨ FPoly.coprimeCert M' (mpolyToDense 0 A) (mpolyToDense 0 B) then .ok (tag ++ "/certified")
+                  else .viol "ugcd-gcd" s!"cofactors of {showUPoly g} are not coprime over the field")
+             | _, _ => .viol "ugcd-gcd" s!"returned {showUPoly g} does not divide both operands")
+          | _, _, _, _ => .viol "up-canon" "gcd operand/result not canonical")
+       | "ppcont", [p], [pp, c, isPrim] =>
+         (match U? p, U? pp, pInt? c with
+          | some p, some pp, some c =>
+            let P := M p; let PP := M pp
+            if MPoly.mulInt K PP c ≠ P then .viol "ugcd-ppcont" "cont*pp ≠ p"
+            else if MPoly.intContent PP ≠ 1 then .viol "ugcd-primitive" s!"primitive part {showUPoly pp} has content {MPoly.intContent PP}"
+            else if pp.getLast?.getD 0 ≤ 0 then .viol "ugcd-ppsign" "primitive part has non-positive leading coefficient"
+            else if isPrim ≠ "1" then .viol "ugcd-isprimitive" "is_primitive false on a primitive part"
+            else .ok "uppcont"
+          | _, _, _ => .viol "up-canon" "ppcont operand/result not canonical")
+       | "xgcd", [p, q], [g, u, v] =>
+         (match K, U? p, U? q, U? g, U? u, U? v with
+          | some M', some p, some q, some g, some u, some v =>
+            let P := M p; let Q := M q; let G := M g
+            if MPoly.add K (MPoly.mul K (M u) P) (MPoly.mul K (M v) Q) ≠ G then .viol "ugcd-xgcd" "u*p + v*q ≠ g"
+            else if g.getLast? ≠ some 1 then .viol "ugcd-monic" "extended gcd is not monic"
+            else
+              (match MPoly.divExact? K prime P G, MPoly.divExact? K prime Q G with
+               | some A, some B =>
+                 if FPoly.coprimeCert M' (mpolyToDense 0 A) (mpolyToDense 0 B) then .ok "xgcd/certified"
+                 else .viol "ugcd-gcd" "cofactors of the extended gcd are not coprime"
+               | _, _ => .viol "ugcd-gcd" "extended gcd does not divide both operands")
+          | _, _, _, _, _, _ => .viol "up-canon" "xgcd operand/result not canonical")
+       | "bezout", [p, q, r], [u, v] =>
+         (match U? p, U? q, U? r, U? u, U? v with
+          | some p, some q, some r, some u, some v =>
+            if MPoly.add K (MPoly.mul K (M u) (M p)) (MPoly.mul K (M v) (M q)) ≠ M r then .viol "ugcd-bezout" "u*p + v*q ≠ r"
+            else if !((M u).isEmpty || u.length < q.length) || !((M v).isEmpty || v.length < p.length) then .viol "ugcd-bezout-degree" "degree bounds deg u < deg q, deg v < deg p violated"
+            else .ok "bezout"
+          | _, _, _, _, _ => .viol "up-canon" "bezout operand/result not canonical")
+       | _, _, _ => .skip s!"unknown ugcd op {op}")
+  | _ => .skip "short ugcd line"
 
 end LP.Driver
